@@ -25,7 +25,7 @@ var c06Examples = []gram.ExampleSpec{
 }
 
 func c06Opts(r *mon.RNG, i int) *gram.GenOpts {
-	prof := []int{gram.ProfStateful, gram.ProfDefault, gram.ProfLower}[i%3]
+	prof := []int{gram.ProfStateful, gram.ProfDefault, gram.ProfLower, gram.ProfScanCfg}[i%4]
 	return &gram.GenOpts{Profile: prof, MaxProds: 5, Budget: 12 + r.Intn(14), Depth: 2 + r.Intn(3), TokKinds: true, Unions: true,
 		SharePrefix: 5, CaptureBias: 5, SubBias: 4, AllowBang: true, NamesElided: i%8 == 7}
 }
@@ -86,13 +86,13 @@ func c06ErrorOracle(err error, input, filename string, L []lexer.Token, lexErr e
 // c06Corpus collects the example's own input files.
 func c06Corpus(name string) []string {
 	var out []string
-	ents, _ := os.ReadDir(filepath.Join("/repo/_examples", name))
+	ents, _ := os.ReadDir(filepath.Join(gram.RepoDir(), "_examples", name))
 	for _, e := range ents {
 		n := e.Name()
 		if e.IsDir() || strings.HasSuffix(n, ".go") {
 			continue
 		}
-		if b, err := os.ReadFile(filepath.Join("/repo/_examples", name, n)); err == nil && len(b) < 200000 {
+		if b, err := os.ReadFile(filepath.Join(gram.RepoDir(), "_examples", name, n)); err == nil && len(b) < 200000 {
 			out = append(out, string(b))
 		}
 	}
@@ -432,7 +432,7 @@ func init() {
 		Assumptions: []string{"for the two examples with Parseable/ParseTypeWith user code only the panic monitor and the AST-nil rule are applied", "exponential (grammar,input) pairs are skipped by the reference-cost guard for generated grammars; hangs on example grammars are decided by the child watchdog plus isolated re-run", "thrift/ebnf/generics examples are not included (thrift's test dependency is not cached; the others add nothing)"},
 		Batches:     func(t string) int { return pick(t, 4, 16) },
 		Floor:       func(t string) int { return pick(t, 5000, 50000) },
-		TimeoutSec:  func(t string) int { return pick(t, 900, 3600) },
+		TimeoutSec:  func(t string) int { return pick(t, 400, 3600) },
 		Prepare: gramPrepareEx("C06", func(t string) int { return pick(t, 60, 150) }, c06Opts, witnessExtra, false, func(dir string) error {
 			_, err := gram.EmitExamples(dir, c06Examples)
 			return err
